@@ -97,6 +97,12 @@ MERGE = dict(BASE, params=dict(self='obj:Domain', other='obj:Domain'), requires=
                       'new-sizes-from-other': 'forall(lambda j: implies(j >= len(self.attrs), result.shape[j] == other.config[result.attrs[j]]), 0, len(result.attrs))',
                       'size-is-product': 'prod(result.shape, len(result.shape)) == prod(self.shape, len(self.shape)) * '
                                          'prod(other.marginalize(self.attrs).shape, len(other.marginalize(self.attrs).shape))'})
+# NOT PROVED (the ground-instantiation search did not converge within the budget; withdrawn from the claim, see DESIGN.md):
+# distinctness and the config law of merge's result.  Callers that need them (the Factor contracts) ASSUME them; the
+# bounded tier of C15 checks them on every merge it performs.
+MERGE_RESULT_INVARIANT_ASSUMED = {
+    'assumed:attributes-distinct': 'is_distinct(result.attrs)',
+    'assumed:config-matches-shape': 'forall(lambda i: result.config[result.attrs[i]] == result.shape[i], 0, len(result.attrs))'}
 
 # ------------------------------------------------------------------ contains / size / eq / small accessors
 CONTAINS = dict(BASE, params=dict(self='obj:Domain', other='obj:Domain'), requires=[],
